@@ -1,0 +1,104 @@
+// SPDX-License-Identifier: GPL-2.0-only
+
+//! Verification hook (only compiled with `--cfg stgit_verif`): named program points.
+//!
+//! `point("<name>")` is called at phase boundaries of a stack transaction. By default it
+//! does nothing. An external harness can act on the n-th arrival at a point through the
+//! environment:
+//!
+//! - `STGIT_VERIF_DIR=<dir>`: every arrival is appended to `<dir>/points.log`.
+//! - `STGIT_VERIF_POINT=<name>:<nth>:<action>[,<name>:<nth>:<action>...]` with action
+//!   `fail` (return an error), `kill` (SIGKILL this process), or `pause` (create
+//!   `<dir>/<name>.reached`, then wait until `<dir>/<name>.go` exists).
+
+use std::{collections::HashMap, io::Write, sync::Mutex};
+
+use anyhow::{anyhow, Result};
+
+static COUNTS: Mutex<Option<HashMap<String, usize>>> = Mutex::new(None);
+
+fn arrival(name: &str) -> usize {
+    let mut guard = COUNTS.lock().unwrap_or_else(|e| e.into_inner());
+    let counts = guard.get_or_insert_with(HashMap::new);
+    let n = counts.entry(name.to_string()).or_insert(0);
+    *n += 1;
+    *n
+}
+
+pub(crate) fn point(name: &str) -> Result<()> {
+    let nth = arrival(name);
+    let dir = std::env::var_os("STGIT_VERIF_DIR").map(std::path::PathBuf::from);
+    if let Some(dir) = dir.as_ref() {
+        if let Ok(mut f) = std::fs::OpenOptions::new()
+            .create(true)
+            .append(true)
+            .open(dir.join("points.log"))
+        {
+            writeln!(f, "{} {name} {nth}", std::process::id()).ok();
+        }
+    }
+    let Ok(spec) = std::env::var("STGIT_VERIF_POINT") else {
+        return Ok(());
+    };
+    for item in spec.split(',') {
+        let mut fields = item.split(':');
+        let (Some(pname), Some(pnth), Some(action)) = (fields.next(), fields.next(), fields.next())
+        else {
+            continue;
+        };
+        if pname != name || pnth.parse::<usize>().ok() != Some(nth) {
+            continue;
+        }
+        match action {
+            "fail" => return Err(anyhow!("verif: injected failure at `{name}`")),
+            "kill" => {
+                let pid = std::process::id().to_string();
+                std::process::Command::new("kill")
+                    .args(["-KILL", &pid])
+                    .status()
+                    .ok();
+                loop {
+                    std::thread::sleep(std::time::Duration::from_secs(1));
+                }
+            }
+            "pause" => {
+                if let Some(dir) = dir.as_ref() {
+                    std::fs::write(dir.join(format!("{name}.reached")), b"").ok();
+                    let go = dir.join(format!("{name}.go"));
+                    while !go.exists() {
+                        std::thread::sleep(std::time::Duration::from_millis(2));
+                    }
+                }
+            }
+            _ => {}
+        }
+    }
+    Ok(())
+}
+
+/// Record the ordered list of reference edits of the final ref transaction.
+pub(crate) fn dump_ref_edits(edits: &[gix::refs::transaction::RefEdit]) {
+    let Some(dir) = std::env::var_os("STGIT_VERIF_DIR").map(std::path::PathBuf::from) else {
+        return;
+    };
+    let mut out = String::new();
+    for edit in edits {
+        use gix::refs::transaction::{Change, PreviousValue};
+        let expected = |p: &PreviousValue| match p {
+            PreviousValue::Any => "any".to_string(),
+            PreviousValue::MustExist => "must-exist".to_string(),
+            PreviousValue::MustNotExist => "must-not-exist".to_string(),
+            PreviousValue::MustExistAndMatch(t) => format!("match:{t}"),
+            PreviousValue::ExistingMustMatch(t) => format!("existing-match:{t}"),
+        };
+        match &edit.change {
+            Change::Update { expected: e, new, .. } => {
+                out.push_str(&format!("update {} {new} {}\n", edit.name, expected(e)));
+            }
+            Change::Delete { expected: e, .. } => {
+                out.push_str(&format!("delete {} - {}\n", edit.name, expected(e)));
+            }
+        }
+    }
+    std::fs::write(dir.join("ref_edits.txt"), out).ok();
+}
